@@ -504,6 +504,12 @@ impl Store {
         // Get the index topic key
         let topic_key = idx_topic_key_from_frame(frame)?;
 
+        // An imported context registration makes the context usable right away,
+        // exactly as it would be after a restart
+        if frame.topic == "xs.context" && frame.context_id == ZERO_CONTEXT {
+            self.contexts.write().unwrap().insert(frame.id);
+        }
+
         let mut batch = self.keyspace.batch();
         batch.insert(&self.frame_partition, frame.id.as_bytes(), encoded);
         batch.insert(&self.idx_topic, topic_key, b"");
